@@ -58,6 +58,9 @@ pub struct Shared {
     pub write_chunking: Option<(usize, Duration)>,
     wsleep: Option<Pin<Box<Sleep>>>,
     wstall_armed: bool,
+    /// the peer has stopped reading: writes never complete
+    pub write_blocked: bool,
+    wwaker: Option<Waker>,
     /// ready reads since the transport last made its task yield. A real tokio socket takes part in
     /// cooperative scheduling (a task is forced to yield after 128 ready operations); without this an
     /// always-ready scripted transport would let the session monopolise the single-threaded runtime,
@@ -101,6 +104,8 @@ pub fn sim_io(script: Vec<In>, seq: Seq) -> (SimIo, Handle) {
         write_chunking: None,
         wsleep: None,
         wstall_armed: false,
+        write_blocked: false,
+        wwaker: None,
         ready_reads_since_yield: 0,
         read_polls: 0,
         read_polls_since_progress: 0,
@@ -135,6 +140,16 @@ impl Handle {
     }
     pub fn set_responder(&self, r: Responder) {
         self.0.lock().unwrap().responder = Some(r);
+    }
+    /// the peer stops (or resumes) reading: while blocked, every write stays pending
+    pub fn set_write_blocked(&self, blocked: bool) {
+        let mut s = self.0.lock().unwrap();
+        s.write_blocked = blocked;
+        if !blocked {
+            if let Some(w) = s.wwaker.take() {
+                w.wake();
+            }
+        }
     }
     pub fn set_write_chunking(&self, bytes: usize, stall: Duration) {
         self.0.lock().unwrap().write_chunking = Some((bytes.max(1), stall));
@@ -264,6 +279,10 @@ impl AsyncWrite for SimIo {
         let mut guard = self.shared.lock().unwrap();
         let s = &mut *guard;
         s.write_polls += 1;
+        if s.write_blocked {
+            s.wwaker = Some(cx.waker().clone());
+            return Poll::Pending;
+        }
         if let Some((_, stall)) = s.write_chunking {
             if s.wstall_armed {
                 if s.wsleep.is_none() {
